@@ -353,6 +353,24 @@ func (root *Root) resolveList(
 			rlist = append(rlist, v)
 		}
 		result = rlist
+	case []Type:
+		// The schema's own lists (interfaces, union members) are not the
+		// application's data, they never go to an AnyResolver.
+		rlist := make([]interface{}, 0, len(list))
+		var v interface{}
+		for i, x := range list {
+			v, ea2 = root.resolve(x, vars, field, lt, depth)
+			Errors(ea2).in(i)
+			ea = append(ea, ea2...)
+			rlist = append(rlist, v)
+		}
+		result = rlist
+	case []Location:
+		rlist := make([]interface{}, 0, len(list))
+		for _, loc := range list {
+			rlist = append(rlist, string(loc))
+		}
+		result = rlist
 	case []string:
 		rlist := make([]interface{}, 0, len(list))
 		for _, s := range list {
